@@ -409,15 +409,15 @@ class KernelView:
     sources (c/*.c, c/*.h, c/*.cpp) are forwarded, under the rule id '<prefix>.<original id>'; rule texts are kept and
     registered on first use (floor 1); notes / assumptions / unknowns of the other property are dropped."""
 
-    def __init__(self, rep: Report, prefix: str):
-        self._rep, self._prefix, self._texts = rep, prefix, {}
+    def __init__(self, rep: Report, prefix: str, only_compiled: bool = True):
+        self._rep, self._prefix, self._texts, self._only_c = rep, prefix, {}, only_compiled
         self.tier, self.property_id = rep.tier, rep.property_id
 
     def rule(self, rid, text, floor=1):
         self._texts[rid] = text
 
     def instance(self, rule, file, qualname, construct, ok, explanation="", line=None, nontrivial=True, sample=None, obligation=False):
-        if not file.endswith((".c", ".h", ".cpp")):
+        if self._only_c and not file.endswith((".c", ".h", ".cpp")):
             return bool(ok)
         rid = f"{self._prefix}.{rule}"
         if rid not in self._rep.rules:
